@@ -68,10 +68,11 @@ package reclaim
 //   - a table of failed jobs that holds jobs of ITS OWN queue only answers "not easier" - precondition [ownQueueScope] of
 //     common.(*MinimalJobRepresentatives).IsEasierToSchedule / UpdateRepresentative (no table of this action is declared
 //     cluster-wide), proved at both call sites from the loop invariants:
-//       [tablesWellFormed] every table registered under a queue is well-formed,
+//       [tablesExist] [storedJobsExist] every table registered under a queue is well-formed (no nil table, map or stored
+//                          job; the allocated(..) conjuncts are heap-closedness facts the stable-field reasoning needs),
 //       [perQueueScope]    and holds only jobs of that queue,
 //       [tablesSeparate]   tables of different queues share nothing (recording a failure in one leaves the others alone);
-//       [tablesExist] / [storedJobsExist] are heap-closedness facts the stable-field reasoning needs.
+//       [orderSession]     the job order belongs to this session (links PopNextJob [poppedQueueKnown] to the attempt's [queueKnown]).
 // Every other popped job is handed to attemptToReclaimForSpecificJob (which takes the validation snapshot, C07).
 // C06: "Every such eviction is committed together with the bind or nomination of the workload it was made for":
 // statement.Commit() is reached only with the statement a successful attempt returned (preconditions of Commit, proved at
@@ -80,7 +81,7 @@ package reclaim
 // C05 "within one cycle": the action ends only when the job order is empty - every candidate job was popped and either
 // skipped for one of the two reasons above or attempted ([orderDrained]; a failed attempt does not stop the loop).
 //@ func (*reclaimAction).Execute
-//@   props C05 C06 C07 C03 C10
+//@   props C05 C06 C03 C10
 //@   usestable MinimalJobRepresentatives.representatives map[common_info.SchedulingConstraintsSignature]*podgroup_info.PodGroupInfo PodGroupInfo.Queue Session.ClusterInfo JobsOrderByQueues.ssn ClusterInfo.Queues map[common_info.QueueID]*queue_info.QueueInfo
 //@   requires ssn != nil && ssn.ClusterInfo != nil && ssn.Config != nil && sessionJobsOK(ssn)
 //@   requires [queueDepthNotZero] ssn.GetJobsDepth("reclaim") != 0
